@@ -32,7 +32,7 @@ template <etl::builtin_unsigned_integer UInt>
     } else {
         // for types subject to integral promotion
         auto o = etl::numeric_limits<unsigned>::digits - etl::numeric_limits<UInt>::digits;
-        return UInt{1U << (bit_width(UInt{x - 1U}) + o) >> o};
+        return static_cast<UInt>(1U << (bit_width(static_cast<UInt>(x - 1U)) + o) >> o);
     }
 }
 
